@@ -20,3 +20,6 @@ def run(ctx):
         if r.get("fail"):
             ctx.fail(r["fail"], "endpoint monitor '%s' failed: %s" % (r["fail"], str(r.get("info"))[:400]), case=r)
     ctx.model("Run.RunC07", recs, shard=300)
+    # a peer which answers every call several times (real sockets): a surplus copy must not become the outcome of a later call
+    import props.C09 as c09
+    c09.run(ctx, test="^TestVerifDupResponses$", name="C07-dup")
